@@ -437,7 +437,7 @@ func runC13(ctx *Ctx) error {
 		}
 		if reads != nil && len(fails) == 0 {
 			var ft, st []string
-			for _, d := range sc.inbound {
+			for _, d := range reads.frames {
 				ft = append(ft, tx(d))
 			}
 			for _, s := range reads.sizes {
@@ -531,8 +531,9 @@ func (sc c13Scenario) describe() string {
 }
 
 type c13Reads struct {
-	sizes []int
-	got   [][]byte
+	sizes  []int
+	got    [][]byte
+	frames [][]byte
 }
 
 // run executes the scenario; it returns the failures and, for fault-free scenarios, the Read trace.
@@ -749,6 +750,57 @@ func (sc c13Scenario) run(r Rng) (fails []Failure, reads *c13Reads) {
 			if !readFrame(d) {
 				return
 			}
+			rd.frames = append(rd.frames, d)
+		}
+		// ---- slow reader: several frames (and frames for others) arrive while the first is only partly read
+		if sc.fault == "" {
+			k := 2 + r.Intn(3)
+			var payloads [][]byte
+			var wantAll []byte
+			for j := 0; j < k; j++ {
+				p := r.Bytes(8 + r.Intn(40))
+				payloads, wantAll = append(payloads, p), append(wantAll, p...)
+			}
+			dframe := func(d []byte) []byte {
+				return simFrame{Port: sc.port, Kind: 'D', PID: 0xf0, From: sc.peer, To: sc.mycall, Data: d}.encode()
+			}
+			var got []byte
+			read1 := func(size int) bool {
+				buf := make([]byte, size)
+				conn.SetReadDeadline(time.Now().Add(3 * time.Second))
+				n, err := conn.Read(buf)
+				if err != nil {
+					fail("read-stream", "slow reader: Read: %v after %d of %d bytes", err, len(got), len(wantAll))
+					return false
+				}
+				rd.sizes = append(rd.sizes, size)
+				rd.got = append(rd.got, append([]byte{}, buf[:n]...))
+				got = append(got, buf[:n]...)
+				return true
+			}
+			sendSplit(dframe(payloads[0]))
+			if !read1(3) {
+				return
+			}
+			for j := 1; j < k; j++ {
+				time.Sleep(3 * time.Millisecond)
+				if r.Intn(2) == 0 {
+					sendSplit(foreign())
+					time.Sleep(3 * time.Millisecond)
+				}
+				sendSplit(dframe(payloads[j]))
+			}
+			time.Sleep(5 * time.Millisecond)
+			for len(got) < len(wantAll) {
+				if !read1([]int{1, 2, 5, 16, 64, 256}[r.Intn(6)]) {
+					return
+				}
+			}
+			if !bytes.Equal(got, wantAll) {
+				fail("read-stream", "slow reader (frames queued while an earlier one was partly read): Read yielded %s, the frames carried %s", trunc(hexs(got)), trunc(hexs(wantAll)))
+				return
+			}
+			rd.frames = append(rd.frames, payloads...)
 		}
 		if sc.fault == "truncate" || sc.fault == "toolong" {
 			h := simFrame{Port: sc.port, Kind: 'D', PID: 0xf0, From: sc.peer, To: sc.mycall, Data: []byte("0123456789")}.encode()
